@@ -172,7 +172,15 @@ pub fn run_and_compare(
             st.entries_compared += 1;
             if o.re.tag == TAG_POISON || o.im.tag == TAG_POISON {
                 st.poison_leaks += 1;
-                st.note(format!("{} entry={} chunk={} k={}: stale scratch/output content reached the result", what, entry.name(), ci, k));
+                let raw = st.flags & crate::fp::FLAG_RAW_BYTES != 0;
+                st.note(format!(
+                    "{} entry={} chunk={} k={}: {}",
+                    what,
+                    entry.name(),
+                    ci,
+                    k,
+                    if raw { "a value that no operation of the element type produced (all-zero bytes: memset / mem::zeroed / transmute) was used as an element and reached the result; the type's zero is not the all-zero bit pattern" } else { "stale scratch/output content reached the result" }
+                ));
             } else if (o.re.v, o.im.v) != ex[k] {
                 st.note(format!("{} entry={} chunk={} k={}: got ({},{}) expected ({},{}) in F_p", what, entry.name(), ci, k, o.re.v, o.im.v, ex[k].0, ex[k].1));
             }
